@@ -2,7 +2,7 @@ package props
 
 import (
 	"fmt"
-	"go/ast"
+	"go/constant"
 	"go/token"
 	"go/types"
 	"sort"
@@ -128,29 +128,36 @@ func prioRule(c *core.Ctx, global, ctor, typ string) {
 		c.Broken("C09-PRIO", key+"#keys", ctor+" not found")
 		return
 	}
+	// the codings for which the constructor yields a codec: evaluated by constant propagation for every declared constant
+	// of the coding type and every key of the table (independent of whether the constructor is a switch or an if-chain)
 	withCodec := map[int64]bool{}
-	ast.Inspect(decl.Body, func(n ast.Node) bool {
-		cc, ok := n.(*ast.CaseClause)
-		if !ok || cc.List == nil {
-			return true
-		}
-		nonNil := false
-		for _, s := range cc.Body {
-			if rs, ok := s.(*ast.ReturnStmt); ok && len(rs.Results) == 1 && !dpkg.TypesInfo.Types[rs.Results[0]].IsNil() {
-				nonNil = true
-			}
-		}
-		if nonNil {
-			for _, e := range cc.List {
-				if tv := dpkg.TypesInfo.Types[e]; tv.Value != nil {
-					if v, ok := constantUint(tv); ok {
-						withCodec[int64(v)] = true
+	cands := map[int64]bool{}
+	for k := range table {
+		cands[k] = true
+	}
+	if dp := c.Prog.Pkg("datacoding"); dp != nil {
+		if tn, ok := dp.Types.Scope().Lookup(typ).(*types.TypeName); ok {
+			for _, n := range dp.Types.Scope().Names() {
+				if k, ok := dp.Types.Scope().Lookup(n).(*types.Const); ok && types.Identical(k.Type(), tn.Type()) {
+					if v, exact := constant.Int64Val(k.Val()); exact {
+						cands[v] = true
 					}
 				}
 			}
 		}
-		return true
-	})
+	}
+	ctorFn := c.Prog.SSAFunc(fnObj)
+	for k := range cands {
+		r, _, _, why := evalEnum(ctorFn, k)
+		if why != "" {
+			c.Unknown("C09-PRIO", key+"#keys", c.Prog.Pos(decl.Pos()), fmt.Sprintf("%s could not be evaluated for coding %d: %s", ctor, k, why))
+			return
+		}
+		if !paths.IsNilConst(r) {
+			withCodec[k] = true
+		}
+	}
+	_ = dpkg
 	var diff []string
 	for k := range withCodec {
 		if _, ok := table[k]; !ok {
@@ -403,6 +410,191 @@ func flowRule(c *core.Ctx) {
 		}
 	}
 	c.Decide(fbOK, "C09-FLOW", "Build#fallback", pos, "UCS-2 fallback only when nothing encoded and UCS-2 was not among the candidates", "the UCS-2 fallback is not guarded by `no candidate encoded` and `UCS-2 was not a candidate`")
+	// the flag consulted by the fallback is set exactly when a candidate EQUALS a UCS-2 coding
+	{
+		ok, why := false, "no loop-carried boolean flag found"
+		pv := prover.New(build)
+		for _, l := range pv.Loops() {
+			for _, ins := range l.Header.Instrs {
+				ph, isPhi := ins.(*ssa.Phi)
+				if !isPhi {
+					break
+				}
+				if bt, isB := ph.Type().Underlying().(*types.Basic); !isB || bt.Kind() != types.Bool {
+					continue
+				}
+				ok, why = true, ""
+				for i, pred := range l.Header.Preds {
+					e := ph.Edges[i]
+					if !l.Blocks[pred] {
+						if k, isK := e.(*ssa.Const); !isK || k.Value == nil || constant.BoolVal(k.Value) {
+							ok, why = false, "the flag does not start as false"
+						}
+						continue
+					}
+					// latch value: phi [prev, true-under-equality]
+					inner, isPhi := e.(*ssa.Phi)
+					if !isPhi {
+						ok, why = false, "the flag is not updated by `if candidate == UCS2 { flag = true }`"
+						continue
+					}
+					for j, ip := range inner.Block().Preds {
+						ev := inner.Edges[j]
+						if ev == ssa.Value(ph) {
+							continue
+						}
+						k, isK := ev.(*ssa.Const)
+						if !isK || k.Value == nil || !constant.BoolVal(k.Value) {
+							ok, why = false, "the flag is assigned something other than true"
+							continue
+						}
+						// ip is the `then` block: its single predecessor tests equality and ip is the true successor
+						if len(ip.Preds) != 1 {
+							ok, why = false, "the assignment is not directly under one test"
+							continue
+						}
+						tb := ip.Preds[0]
+						ifi, isIf := tb.Instrs[len(tb.Instrs)-1].(*ssa.If)
+						cond, isBo := (ssa.Value)(nil), false
+						var bo *ssa.BinOp
+						if isIf {
+							cond = ifi.Cond
+							bo, isBo = cond.(*ssa.BinOp)
+						}
+						if !isIf || !isBo || bo.Op != token.EQL || tb.Succs[0] != ip {
+							ok, why = false, "the flag is set on a path where the candidate is NOT established to equal the UCS-2 coding"
+							continue
+						}
+						var kc *ssa.Const
+						for _, side := range []ssa.Value{bo.X, bo.Y} {
+							if mi, isMI := side.(*ssa.MakeInterface); isMI {
+								kc, _ = mi.X.(*ssa.Const)
+							}
+						}
+						if kc == nil {
+							ok, why = false, "the candidate is not compared with a coding constant"
+							continue
+						}
+						if n, isN := kc.Type().(*types.Named); isN {
+							if m := c.Prog.SSAFunc(c.Prog.LookupMethod("datacoding", n.Obj().Name(), "ToUint8")); m != nil {
+								kv, _ := constInt(kc)
+								if _, num, isConst, _ := evalEnum(m, kv); !isConst || num != 8 {
+									ok, why = false, fmt.Sprintf("the constant compared (%s %d) is not a UCS-2 coding (wire number 8)", n.Obj().Name(), kv)
+								}
+							}
+						}
+					}
+				}
+			}
+		}
+		c.Decide(ok, "C09-FLOW", "Build#ucs2-flag", pos, "flag := false; set to true exactly under `candidate == UCS2`", why)
+	}
+	// the fallback encoder is built with the UCS-2 coding of the request's own protocol
+	{
+		var problems []string
+		n := 0
+		newEnc := c.Prog.SSAFunc(c.Prog.LookupFunc("", "newBatchEncoder"))
+		pv := prover.New(build)
+		inAnyLoop := func(b *ssa.BasicBlock) bool {
+			for _, l := range pv.Loops() {
+				if l.Blocks[b] {
+					return true
+				}
+			}
+			return false
+		}
+		for _, b := range build.Blocks {
+			if inAnyLoop(b) {
+				continue
+			}
+			for _, ins := range b.Instrs {
+				call, isC := ins.(*ssa.Call)
+				if !isC || newEnc == nil || call.Call.StaticCallee() != newEnc || len(call.Call.Args) < 2 {
+					continue
+				}
+				n++
+				mi, isMI := call.Call.Args[1].(*ssa.MakeInterface)
+				var kc *ssa.Const
+				if isMI {
+					kc, _ = mi.X.(*ssa.Const)
+				}
+				var named *types.Named
+				if kc != nil {
+					named, _ = kc.Type().(*types.Named)
+				}
+				if kc == nil || named == nil {
+					problems = append(problems, "the fallback coding at "+c.Prog.Pos(call.Pos())+" is not a coding constant")
+					continue
+				}
+				// the protocol established on the way to this call
+				proto := ""
+				for d := b; d != nil; d = d.Idom() {
+					id := d.Idom()
+					if id == nil {
+						break
+					}
+					ifi, isIf := id.Instrs[len(id.Instrs)-1].(*ssa.If)
+					if !isIf {
+						continue
+					}
+					bo, isBo := ifi.Cond.(*ssa.BinOp)
+					if !isBo || (bo.Op != token.EQL && bo.Op != token.NEQ) {
+						continue
+					}
+					var pk *ssa.Const
+					isProto := false
+					for _, side := range []ssa.Value{bo.X, bo.Y} {
+						if k, isK := side.(*ssa.Const); isK {
+							pk = k
+						} else if u, isU := side.(*ssa.UnOp); isU {
+							if _, f, isF := fieldOfAddr(u.X); isF && f.Name() == "protocol" {
+								isProto = true
+							}
+						}
+					}
+					if pk == nil || !isProto {
+						continue
+					}
+					viaTrue := id.Succs[0] == d || id.Succs[0].Dominates(d)
+					viaFalse := id.Succs[1] == d || id.Succs[1].Dominates(d)
+					if (bo.Op == token.EQL && viaTrue && !viaFalse) || (bo.Op == token.NEQ && viaFalse && !viaTrue) {
+						// name of the protocol constant
+						if pn, isN := pk.Type().(*types.Named); isN && pn.Obj().Pkg() != nil {
+							for _, nm := range pn.Obj().Pkg().Scope().Names() {
+								if kk, isK := pn.Obj().Pkg().Scope().Lookup(nm).(*types.Const); isK && types.Identical(kk.Type(), pn) && kk.Val().ExactString() == pk.Value.ExactString() {
+									proto = nm
+								}
+							}
+						}
+					}
+				}
+				kv, _ := constInt(kc)
+				switch {
+				case proto == "":
+					problems = append(problems, "the fallback at "+c.Prog.Pos(call.Pos())+" is not under a test that establishes the request's protocol")
+				case !strings.HasPrefix(named.Obj().Name(), proto):
+					problems = append(problems, fmt.Sprintf("under protocol %s the fallback uses a %s constant", proto, named.Obj().Name()))
+				default:
+					if m := c.Prog.SSAFunc(c.Prog.LookupMethod("datacoding", named.Obj().Name(), "ToUint8")); m != nil {
+						if _, num, isConst, _ := evalEnum(m, kv); !isConst || num != 8 {
+							problems = append(problems, fmt.Sprintf("the %s fallback coding %d has wire number %d, UCS-2 is 8", proto, kv, num))
+						}
+					}
+					if ctor := c.Prog.SSAFunc(c.Prog.LookupFunc("datacoding", "New"+proto+"Codec")); ctor != nil {
+						r, _, _, why := evalEnum(ctor, kv)
+						cm, isMI := r.(*ssa.MakeInterface)
+						if why != "" || !isMI || !strings.HasSuffix(cm.X.Type().String(), "datacoding.UCS2") {
+							problems = append(problems, fmt.Sprintf("the %s fallback coding %d does not select the UCS2 codec", proto, kv))
+						}
+					}
+				}
+			}
+		}
+		if n == 0 {
+			problems = append(problems, "no fallback encoder construction found")
+		}
+		c.Decide(len(problems) == 0, "C09-FLOW", "Build#fallback-coding", pos, fmt.Sprintf("%d fallback constructions: UCS-2 (8) of the request's protocol", n), strings.Join(dedup(problems), "; "))
+	}
 	// a candidate's codec comes from a constructor without a default: an undeclared coding must yield nil (and so
 	// canEncode=false), not a substitute codec whose output would then compete under the undeclared coding's name.
 	if run := c.Prog.SSAFunc(c.Prog.LookupMethod("", "encoder", "Run")); run == nil {
